@@ -141,9 +141,11 @@ ODD_INTS = [" 1", "1 ", "\t1", "+1", "1_0", "007", "-0", "１", "٣", "00", "+0"
 BAD_INTS = ["", "abc", "1a", "1.0", "1e3", "0x10", "1.5", "--1", "1;", "None", "true", "١٢x", "½", " "]
 HUGE_INTS = ["1" + "0" * 30, "9" * 400, "7" * 5000, "-" + "3" * 4500]
 ABSURD = {
-    0: ["abc", "", "nan", "inf", "-inf", "1e999", "-3", "150", "12.5", "0x10", "٥", "1e2", " 7", "1_0", "99.5", "101"],
-    22: ["xyz", "", "1.5", "9" * 30, "-1", "1e3", "٣", " 4", "+5", "1_0", "0x1"],
-    2: ["garbage", "", "1..2", "2.2.0-beta", "v2.2", "2", ".", "2.x", "٢.٢"],
+    0: ["abc", "", "nan", "inf", "-inf", "1e999", "-3", "150", "12.5", "0x10", "٥", "1e2", " 7", "1_0", "99.5", "101",
+        "9" * 5000, "1" + "0" * 400, "0." + "3" * 5000, "-0", "١٠٠"],
+    22: ["xyz", "", "1.5", "9" * 30, "-1", "1e3", "٣", " 4", "+5", "1_0", "0x1", "7" * 5000, "-" + "7" * 4500],
+    2: ["garbage", "", "1..2", "2.2.0-beta", "v2.2", "2", ".", "2.x", "٢.٢", "1" * 5000, "2." + "9" * 4400,
+        "9" * 4301 + ".0", "2.2." + "0" * 5000, "1e5", "-2.2", "2.2 ", " 2.2", "2.2\x00"],
     32: ["x", "500", ""],
 }
 
